@@ -146,7 +146,7 @@ var monoOps = []monoOp{{0, 0}, {0, 2}, {1, 0}, {2, 0}, {50, 0}, {1, 2}}
 func monoNode(r *ev.Run, l layout, depth int) ev.Part {
 	t0 := time.Now()
 	var clock int64 = l.epoch + 5000000 // ms
-	var pending int                      // readings for which the clock stays put
+	var pending int                     // readings for which the clock stays put
 	readings := 0
 	vtime.NowFn = func() time.Time {
 		readings++
@@ -334,6 +334,11 @@ func main() {
 	}
 	if nd := mc.Drive(r, os.Args[0], len(ls)+1); nd != "" {
 		fmt.Println("worker failure:", nd)
+		r.Finish0(2)
+	}
+	// the concurrent clause: engine-S companion binary (harness/c06s)
+	if nd := mc.DriveBin(r, os.Getenv("VERIF_SCHED_BIN")); nd != "" && r.NViolations() == 0 {
+		fmt.Println("engine-S companion failed (machinery error, not a verdict):", nd)
 		r.Finish0(2)
 	}
 	r.Finish()
